@@ -322,8 +322,17 @@ def _bounds(t):
         if k == z3.Z3_OP_BASHR:
             return (ar[0][0] >> c, ar[0][1] >> c)
         return (ar[0][0] << c, ar[0][1] << c)
-    if k == z3.Z3_OP_BSMOD and z3.is_bv_value(t.arg(1)) and t.arg(1).as_signed_long() > 0:
+    if k in (z3.Z3_OP_BSMOD, z3.Z3_OP_BUREM) and z3.is_bv_value(t.arg(1)) and t.arg(1).as_signed_long() > 0:
+        if k == z3.Z3_OP_BUREM and ar[0][0] < 0:
+            return _FULL
         return (0, t.arg(1).as_signed_long() - 1)
+    if k == z3.Z3_OP_BUDIV and z3.is_bv_value(t.arg(1)) and t.arg(1).as_signed_long() > 0 and ar[0][0] >= 0:
+        c = t.arg(1).as_signed_long()
+        return (ar[0][0] // c, ar[0][1] // c)
+    if k == z3.Z3_OP_BSDIV and z3.is_bv_value(t.arg(1)) and t.arg(1).as_signed_long() > 0:
+        c = t.arg(1).as_signed_long()
+        tr = lambda x: x // c if x >= 0 else -((-x) // c)
+        return (tr(ar[0][0]), tr(ar[0][1]))
     return _FULL
 
 
@@ -403,6 +412,8 @@ def _arith(op, a, b):
             E.side(b != 0, 'ZeroDivisionError')
         if cb is not None and cb > 0 and (cb & (cb - 1)) == 0:
             return a >> (cb.bit_length() - 1)      # floor division by 2^k == arithmetic shift (exact for all a)
+        if cb is not None and cb > 0 and bounds(a)[0] >= 0:
+            return z3.UDiv(a, b)                   # non-negative dividend: unsigned division IS floor division
         # bvsdiv truncates; python floors. exact for a>=0,b>0; else correct it.
         q = a / b
         r = z3.SRem(a, b)
@@ -412,6 +423,8 @@ def _arith(op, a, b):
             E.side(b != 0, 'ZeroDivisionError')
         if cb is not None and cb > 0 and (cb & (cb - 1)) == 0:
             return a & iconst(cb - 1)              # python a % 2^k == a & (2^k - 1) for every int a
+        if cb is not None and cb > 0 and bounds(a)[0] >= 0:
+            return z3.URem(a, b)
         return a % b              # bvsmod: sign follows divisor, as python
     if op == 'and': return a & b  # two's complement == python for in-range ints
     if op == 'or': return a | b
